@@ -277,7 +277,7 @@ def s_sign():
         "pre": weighted((1, st.just([])), (1, pre)),
         "withhold": withhold,
         "no_script": no_script,
-        "forms": weighted((1, st.just(0)), (1, st.integers(0, 63))),
+        "forms": weighted((1, st.just(0)), (1, st.integers(0, 127))),
     })
 
 
